@@ -276,7 +276,7 @@ func (si *stmtInliner) inlineAt(file *ast.File, call *ast.CallExpr, fn *types.Fu
 	})
 	var typeMention func(t types.Type)
 	typeMention = func(t types.Type) {
-		types.TypeString(t, func(p *types.Package) string {
+		tstr(t, func(p *types.Package) string {
 			if p != si.pkg {
 				needed[p.Name()] = p.Path()
 			}
@@ -523,16 +523,16 @@ func (si *stmtInliner) inlineAt(file *ast.File, call *ast.CallExpr, fn *types.Fu
 	// prelude
 	var b strings.Builder
 	for i := 0; i < nres; i++ {
-		fmt.Fprintf(&b, "var %s %s\n_ = %s\n", resNames[i], types.TypeString(sig.Results().At(i).Type(), qual), resNames[i])
+		fmt.Fprintf(&b, "var %s %s\n_ = %s\n", resNames[i], tstr(sig.Results().At(i).Type(), qual), resNames[i])
 	}
 	_ = namedRes
 	fmt.Fprintf(&b, "%s:\nfor {\n", label)
 	for i, v := range paramVars {
 		name := v.Name()
 		argText := string(callerSrc[off(argExprs[i].Pos()):off(argExprs[i].End())])
-		typ := types.TypeString(v.Type(), qual)
+		typ := tstr(v.Type(), qual)
 		if sig.Variadic() && v == sig.Params().At(sig.Params().Len()-1) {
-			typ = types.TypeString(v.Type(), qual) // already a slice type
+			typ = tstr(v.Type(), qual) // already a slice type
 		}
 		if name == "" || name == "_" {
 			fmt.Fprintf(&b, "var _ %s = %s\n", typ, argText)
